@@ -56,6 +56,7 @@ type acctJob struct {
 	stats     jobStats
 	err       string
 	secs      float64
+	half      bool // quick tier: replay every second behaviour of the share
 }
 
 func newEnv(rng *rand.Rand) *kindEnv {
@@ -189,6 +190,9 @@ func runAcctJob(j *acctJob, g *mbt.Graph, nFields int, tours, walks [][]int) {
 	var withMutate []int
 	for t, seq := range tours {
 		if t%j.of == j.inst {
+			if j.half && (t/j.of)%2 != int(j.seed&1) {
+				continue // quick tier: kinds sharing sign.go with Transaction replay every second behaviour of their share
+			}
 			seqs = append(seqs, seq)
 		} else if hasMutate(g, seq) {
 			withMutate = append(withMutate, t)
@@ -303,11 +307,11 @@ func runC08(c *core.Ctx) {
 	for _, kn := range kinds {
 		trng := rand.New(rand.NewSource(c.Seed))
 		sg := subgraph(g, keepFor(kn))
-		plans[kn] = &plan{g: sg, tours: sg.Tour(0, trng), walks: sg.Walks(c.Pick(100, 2000), 9, trng)}
+		plans[kn] = &plan{g: sg, tours: sg.Tour(0, trng), walks: sg.Walks(c.Pick(100, 1500), 9, trng)}
 		tourSizes[kn] = len(plans[kn].tours)
 	}
 	c.SetExtra("tour_behaviours_per_kind", tourSizes)
-	c.SetExtra("random_walks_per_kind", c.Pick(100, 2000))
+	c.SetExtra("random_walks_per_kind", c.Pick(100, 1500))
 	tours := plans["T"].tours
 	var jobs []*acctJob
 	for _, kn := range kinds {
@@ -320,12 +324,13 @@ func runC08(c *core.Ctx) {
 			n = len(k.Fields())
 		}
 		for i := 0; i < n; i++ {
-			jobs = append(jobs, &acctJob{kind: kn, inst: i, of: n, extra: c.Pick(150, 2500), seed: c.Seed*7919 + int64(len(jobs))})
+			jobs = append(jobs, &acctJob{kind: kn, inst: i, of: n, extra: c.Pick(150, 2000), seed: c.Seed*7919 + int64(len(jobs)),
+				half: !c.Thorough() && (kn == "K" || kn == "C")})
 		}
 	}
 	tReplay := time.Now()
 	var wg sync.WaitGroup
-	sem := make(chan struct{}, 10)
+	sem := make(chan struct{}, 12)
 	for _, j := range jobs {
 		wg.Add(1)
 		go func(j *acctJob) {
